@@ -1,6 +1,7 @@
 """C11 (hierarchical references canonical and valid: H1-H4, H6-H8) and C12 (cross-hierarchy
 tracing: H3', H5, H9) — kind inference of HRef chains + structural rules."""
 import ast
+import re
 
 from ..core import AnalysisError, norm, short, walk_local, parent_chain, reaching_assign
 from ..kinds import Typer, TOP, obj, kinds_of, expand, NONE, join
@@ -117,9 +118,11 @@ def factory_sites(P, modules):
     """[(func, call, parent type, item type, typer)] for every HRef.from_parent_and_item(p, i)"""
     out = []
     for mod in modules:
+        from ..inline import unmerged_view
         for f in mod.all_funcs():
             if not any(isinstance(c, ast.Call) and _is_href_factory(c) for c in walk_local(f.node)):
                 continue
+            f = unmerged_view(P, f)  # a tail shared by an isinstance split is typed once per kind
             ty = HTyper(P, f).run()
             for cn in ty.cfg.nodes:
                 if cn.id not in ty.state:
@@ -225,6 +228,97 @@ def _none_default_cannot_reach(f, call, ty):
     if any(oc is None for oc, fa, df in paths) or not seen[0]:
         return False
     return not bad[0]
+
+
+OWNER_TIE = {"Instance": ("parent", "in"), "Cable": ("definition", "in"), "Port": ("definition", "in"), "Wire": ("cable", "eq"), "InnerPin": ("port", "eq")}
+
+
+def _h_owner_ties(ctx, R, iv):
+    """is_valid walks from the referenced element to the top.  On every way through one step that moves on to the parent reference, the
+    parent reference's item is tied to the element's own owner: it is the owner (wire -> its cable, pin -> its port) or one of the
+    instances of the owner (instance / port / cable -> parent or definition `.references`).  A step that only looks at the *kind* of the
+    parent's item accepts references to elements that have moved."""
+    from ..paths import stmt_paths
+    R.rule("H14", "every upward step of is_valid ties the parent reference to the element's current owner")
+    loops = [w for w in walk_local(iv.node) if isinstance(w, ast.While)]
+    if not loops:
+        raise AnalysisError("anchor vanished: the upward loop of HRef.is_valid")
+    w = loops[0]
+    cursor = norm(w.test) if isinstance(w.test, ast.Name) else "href"
+    paths = list(stmt_paths(w.body, frozenset(), {}, None, None, opaque_loops=True))
+    if any(oc is None for oc, fa, df in paths):
+        raise AnalysisError("H14: the upward loop of HRef.is_valid is outside what path enumeration models")
+    n = 0
+    for oc, fa, df in paths:
+        if oc != "fall":
+            continue
+        nxt = df.get(cursor)
+        if nxt is None or nxt.replace("(", "").replace(")", "") == "None":
+            continue  # the walk stops here
+        kinds = None  # a tuple of classes is a disjunction: the kinds left are those every positive test allows and no negative one excludes
+        for a in fa:
+            m = re.match(r"isinstance\(%s\.item,(.*)\)$" % re.escape(cursor), a)
+            if m:
+                ks = {k.strip(" ()").split(".")[-1] for k in m.group(1).split(",")}
+                kinds = ks if kinds is None else (kinds & ks)
+        for a in fa:
+            m = re.match(r"notisinstance\(%s\.item,(.*)\)$" % re.escape(cursor), a)
+            if m and kinds is not None:
+                kinds -= {k.strip(" ()").split(".")[-1] for k in m.group(1).split(",")}
+        kinds = (kinds or set()) & set(OWNER_TIE)
+        if not kinds:
+            continue
+        n += 1
+        parent_item = "%s.item" % nxt
+        ok = True
+        for k in sorted(kinds):
+            attr, how = OWNER_TIE[k]
+            owner = "%s.item.%s" % (cursor, attr)
+            if how == "eq":
+                tied = any(a in fa for a in ("eq(%s,%s)" % (owner, parent_item), "eq(%s,%s)" % (parent_item, owner),
+                                             "is(%s,%s)" % (owner, parent_item), "is(%s,%s)" % (parent_item, owner)))
+            else:
+                tied = ("in(%s,%s.references)" % (parent_item, owner)) in fa or ("in(%s,%s._references)" % (parent_item, owner)) in fa
+            if not tied:
+                ok = False
+                R.bad("H14", "%s|%s not tied to %s" % (iv.key, k, attr), iv.loc(w),
+                      "is_valid moves from a %s to its parent reference on a path that never checks that the parent reference's item is the %s's current %s%s: "
+                      "a reference to an element that has been moved elsewhere stays valid"
+                      % (k, k, attr, "" if how == "eq" else " (one of its instances)"))
+        if ok:
+            R.ok("H14", "step from %s tied to its owner" % "/".join(sorted(kinds)), iv.loc(w))
+    R.count("upward steps of is_valid (H14)", n)
+    R.floor("upward steps of is_valid (H14)", 4)
+
+
+def _per_node_path_starts_empty(f, join_call):
+    """the sequence handed to join() is a per-node path that is set to empty for the root (so the top instance's own name is never part of
+    it): a local that, inside the traversal loop, is assigned an empty tuple / list on one branch and `<path above> + (<name>,)` on the
+    other, the join sitting on the non-empty branch"""
+    if not (join_call.args and isinstance(join_call.args[0], ast.Name)):
+        return False
+    nm = join_call.args[0].id
+    loop = next((p for p in parent_chain(join_call) if isinstance(p, (ast.While, ast.For))), None)
+    if loop is None:
+        return False
+    empties = [a for a in ast.walk(loop) if isinstance(a, ast.Assign) and len(a.targets) == 1 and norm(a.targets[0]) == nm
+               and isinstance(a.value, (ast.Tuple, ast.List)) and not a.value.elts]
+    grows = [a for a in ast.walk(loop) if isinstance(a, ast.Assign) and len(a.targets) == 1 and norm(a.targets[0]) == nm
+             and isinstance(a.value, ast.BinOp) and isinstance(a.value.op, ast.Add)]
+    if not empties or not grows:
+        return False
+    # the join must not be reachable from the branch that empties the path
+    for e in empties:
+        blk = getattr(e, "_parent", None)
+        if isinstance(blk, ast.If):
+            same_branch = (any(e is x for x in blk.body) and any(join_call is y for x in blk.body for y in ast.walk(x))) or \
+                          (any(e is x for x in blk.orelse) and any(join_call is y for x in blk.orelse for y in ast.walk(x)))
+            after = not any(join_call is y for x in blk.body + blk.orelse for y in ast.walk(x))
+            if same_branch or after:
+                return False
+        else:
+            return False
+    return True
 
 
 def _is_closure_site(f, call):
@@ -406,7 +500,9 @@ def _h_yield_guards(ctx, R, rid, closures=False):
     for m in H_MODULES:
         mod = P.module(UTIL + m + ".py")
         name, pub, mid, raw0 = _triple(mod)
-        raw = inlined_view(P, raw0)
+        # the work-list closures keep their own visited sets and are checked on their own (closures=True): they stay calls here
+        keep_ = tuple(g.name for g in _closure_generators(mod))
+        raw = inlined_view(P, raw0, keep=keep_)
         if closures:
             for g in _closure_generators(mod):
                 if g is raw0:
@@ -444,7 +540,8 @@ def _h_yield_guards(ctx, R, rid, closures=False):
     from .query_rules import check_stages
     st = 0
     for m in H_MODULES:
-        st += check_stages(R, rid, inlined_view(P, _triple(P.module(UTIL + m + ".py"))[3]))
+        mod_ = P.module(UTIL + m + ".py")
+        st += check_stages(R, rid, inlined_view(P, _triple(mod_)[3], keep=tuple(g.name for g in _closure_generators(mod_))))
     R.count("two-stage hierarchical generators", st)
     R.floor("two-stage hierarchical generators", 5)
     if closures:
@@ -716,6 +813,7 @@ def check_c11(ctx, R):
     iv = hc.props.get("is_valid", {}).get("getter")
     if iv is None:
         raise AnalysisError("anchor vanished: HRef.is_valid")
+    iv = inlined_view(P, iv)  # a private helper for one of the cases (e.g. the top-instance test) is read in place
     cases = set()
     for t in walk_local(iv.node):
         if isinstance(t, ast.Call) and norm(t.func) == "isinstance" and len(t.args) == 2:
@@ -734,7 +832,10 @@ def check_c11(ctx, R):
                   and not (isinstance(r.value, ast.Constant) and r.value.value in (False, None))]
     at_top = [r for r in maybe_true if
               (isinstance(r.value, ast.Constant) and r.value.value is True and any(isinstance(p, ast.If) and "top_instance" in norm(p.test) for p in parent_chain(r)))
-              or (isinstance(r.value, ast.Compare) and "top_instance" in norm(r.value))]
+              or (isinstance(r.value, ast.Compare) and "top_instance" in norm(r.value))
+              # a conjunction is true only if each conjunct is: `return bool(top) and top == item`
+              or (isinstance(r.value, ast.BoolOp) and isinstance(r.value.op, ast.And)
+                  and any(isinstance(v, ast.Compare) and len(v.ops) == 1 and isinstance(v.ops[0], (ast.Eq, ast.Is)) and "top_instance" in norm(v) for v in r.value.values))]
     if maybe_true and len(at_top) == len(maybe_true):
         R.ok("H4", "validity is established only at the netlist's top instance", iv.loc(at_top[0]))
     else:
@@ -769,7 +870,7 @@ def check_c11(ctx, R):
                 for j in joins:
                     if j.func.value.value != sep:
                         R.bad("H6", "%s|separator" % f.key, f.loc(j), "%s joins names with %r, HRef.name uses %r" % (fn, j.func.value.value, sep))
-                    elif "[1:]" not in norm(j):
+                    elif "[1:]" not in norm(j) and not _per_node_path_starts_empty(f, j):
                         R.bad("H6", "%s|top-slice" % f.key, f.loc(j), "%s does not drop the top instance's own name (`[1:]`) as HRef.name does" % fn)
                     else:
                         R.ok("H6", "%s: separator and top slice" % fn, f.loc(j))
@@ -787,12 +888,25 @@ def check_c11(ctx, R):
     ga = inlined_view(P, ga) if ga is not None else None
     if ga is None:
         raise AnalysisError("anchor vanished: HRef.get_all_hrefs_of_instances")
-    pushes = []
-    worklists = {norm(w.test) for w in walk_local(ga.node) if isinstance(w, ast.While) and isinstance(w.test, ast.Name)}
+    # the search may be split: a recursive (hence not spliced) private walker does the descent; it is read with the parameter that
+    # receives the targets in place of the entry point's own
+    searchers = [(ga, ga.params[0])]
     for c in walk_local(ga.node):
-        if isinstance(c, ast.Call) and isinstance(c.func, ast.Attribute) and c.func.attr == "append" and norm(c.func.value) in worklists \
-                and any(isinstance(p, ast.For) and "children" in norm(p.iter) for p in parent_chain(c)):
-            pushes.append(c)
+        if isinstance(c, ast.Call) and isinstance(c.func, ast.Attribute) and c.func.attr.startswith("_") and isinstance(c.func.value, ast.Name) \
+                and c.func.value.id in ("self", "cls", hc.name) and c.func.attr in hc.methods:
+            h = hc.methods[c.func.attr]
+            hp = h.params[1:] if h.role == "method" else h.params
+            for a_, p_ in zip(c.args, hp):
+                if norm(a_) == ga.params[0] and all(h is not s_[0] for s_ in searchers):
+                    searchers.append((h, p_))
+    pushes = []
+    for sf, tgt_ in searchers:
+        worklists = {norm(w.test) for w in walk_local(sf.node) if isinstance(w, ast.While) and isinstance(w.test, ast.Name)}
+        for c in walk_local(sf.node):
+            if isinstance(c, ast.Call) and isinstance(c.func, ast.Attribute) and c.func.attr == "append" and norm(c.func.value) in worklists \
+                    and any(isinstance(p, ast.For) and "children" in norm(p.iter) for p in parent_chain(c)):
+                c._h7_target = tgt_
+                pushes.append(c)
     if not pushes:
         R.bad("H7", "%s|no-descent" % ga.key, ga.loc(), "get_all_hrefs_of_instances never pushes a child reference onto the search stack")
     for c in pushes:
@@ -803,7 +917,7 @@ def check_c11(ctx, R):
                 conds.append((norm(p.test), in_body))
             if isinstance(p, ast.For):
                 break
-        tgt = ga.params[0]
+        tgt = getattr(c, "_h7_target", ga.params[0])
         bad = [t for t, b in conds if (not b and (" in %s" % tgt) in t and "not in" not in t) or (b and ("not in %s" % tgt) in t)]
         need = [t for t, b in conds if b and " in " in t and "not in" not in t and (" in %s" % tgt) not in t]
         if bad:
@@ -814,7 +928,7 @@ def check_c11(ctx, R):
             R.bad("H7", "%s|descent-unbounded" % ga.key, ga.loc(c), "the descent is not restricted to the upward-bound set")
         else:
             R.ok("H7", "descent under `%s`" % need[0], ga.loc(c))
-    yields_in_loop = [y for y in walk_local(ga.node) if isinstance(y, ast.Yield)]
+    yields_in_loop = [y for sf, _t in searchers for y in walk_local(sf.node) if isinstance(y, ast.Yield)]
     R.count("yield sites in the downward search", len(yields_in_loop))
     R.floor("yield sites in the downward search", 2)
     R.rule("H7b", "the upward and downward work lists of get_all_hrefs_of_instances are closed under discovery")
@@ -825,6 +939,8 @@ def check_c11(ctx, R):
     _h_validated_roots(ctx, R, "H12")
     R.rule("H13", "the wire / cable enumerations descend into wire-only cells: descent is pruned by is_leaf(), never by `children` alone")
     _leaf_pruning(ctx, R, "H13", closure=False)
+    # H14: every upward step of is_valid ties the level to its owner
+    _h_owner_ties(ctx, R, iv)
     # H8
     R.rule("H8", "the ancestor walks of is_valid / is_unique use the cursor variable, not self")
     for pname in ("is_valid", "is_unique"):
@@ -954,6 +1070,29 @@ def check_c12(ctx, R):
     _leaf_pruning(ctx, R, "H13'", closure=True)
     R.rule("H11'", "each hierarchical pin / wire of a trace is reported once, de-duplicated on the value yielded")
     _h_yield_guards(ctx, R, "H11'", closures=True)
+    # H15: a reference fixes the occurrence
+    R.rule("H15", "inside the branch that handles a hierarchical reference nothing is enumerated over all occurrences (get_all_hrefs_of_*): the reference already "
+                  "says which occurrence is meant")
+    n15 = 0
+    from .query_rules import _triple
+    for m in H_MODULES:
+        mod = P.module(UTIL + m + ".py")
+        name, pub, mid, raw0 = _triple(mod)
+        raw = inlined_view(P, raw0, keep=tuple(g.name for g in _closure_generators(mod)))
+        for br in walk_local(raw.node):
+            if not (isinstance(br, ast.If) and isinstance(br.test, ast.Call) and norm(br.test.func) == "isinstance" and len(br.test.args) == 2
+                    and norm(br.test.args[1]).split(".")[-1] == "HRef"):
+                continue
+            n15 += 1
+            calls = [c for s_ in br.body for c in ast.walk(s_) if isinstance(c, ast.Call) and isinstance(c.func, ast.Attribute) and c.func.attr.startswith("get_all_hrefs_of")]
+            if calls:
+                R.bad("H15", "%s|enumeration in the reference branch|%s" % (raw.key, calls[0].func.attr), raw.loc(calls[0]),
+                      "%s handles a hierarchical reference but calls `%s`, which lists the element under every instance of its definition: the result contains "
+                      "occurrences outside the one the reference names" % (raw.qualname, short(calls[0], 60)))
+            else:
+                R.ok("H15", "%s: the reference branch stays inside its occurrence" % raw.qualname, raw.loc(br))
+    R.count("reference branches of the raw generators (H15)", n15)
+    R.floor("reference branches of the raw generators (H15)", 5)
     # H9
     R.rule("H9", "closure filters compare whole references, not bare items")
     n9 = 0
@@ -967,6 +1106,33 @@ def check_c12(ctx, R):
                         n9 += 1
                         R.bad("H9", "%s|item-compare" % f.key, f.loc(c),
                               "%s compares `%s`: items are shared by every occurrence of a definition, so different hierarchical pins/wires look equal and are dropped from the trace" % (f.qualname, short(c, 60)))
+            # an exclusion written against bare items inside a closure helper: `if pin is not origin` with pin taken from `<href>.item.pins`
+            # and origin handed in by the caller — the same item occurs under every instance of its definition, so sibling occurrences
+            # are excluded along with the one the trace came from
+            if f.name in CLOSURE_FUNCS or f.name.startswith(("_get_hpins_from", "_get_inner_", "_get_outer_")):
+                item_level = set()
+                for lp in walk_local(f.node):
+                    if isinstance(lp, ast.For) and isinstance(lp.target, ast.Name) and ".item" in norm(lp.iter) and "from_parent_and_item" not in norm(lp.iter):
+                        item_level.add(lp.target.id)
+                grew = True
+                while grew:
+                    grew = False
+                    for a in walk_local(f.node):
+                        if isinstance(a, ast.Assign) and len(a.targets) == 1 and isinstance(a.targets[0], ast.Name) and a.targets[0].id not in item_level \
+                                and isinstance(a.value, ast.Attribute) and isinstance(a.value.value, ast.Name) and a.value.value.id in item_level:
+                            item_level.add(a.targets[0].id)
+                            grew = True
+                params_ = set(f.params)
+                for c in walk_local(f.node):
+                    if isinstance(c, ast.Compare) and len(c.ops) == 1 and isinstance(c.ops[0], (ast.Is, ast.IsNot, ast.Eq, ast.NotEq)):
+                        l, r = c.left, c.comparators[0]
+                        for a_, b_ in ((l, r), (r, l)):
+                            if isinstance(a_, ast.Name) and a_.id in item_level and isinstance(b_, ast.Name) and b_.id in params_ and b_.id not in item_level:
+                                n9 += 1
+                                R.bad("H9", "%s|item-exclusion|%s" % (f.key, b_.id), f.loc(c),
+                                      "%s filters with `%s`: `%s` is a bare netlist item (taken from `.item`), shared by every occurrence of its definition, so the "
+                                      "occurrences reached through sibling instances are excluded together with the one the trace came from"
+                                      % (f.qualname, short(c, 50), a_.id))
             # the work-list exclusion of the pin we came from
             if f.name == "_get_hwires_from_hpins":
                 # (the loader reads `WL += (x for x in IT if c)` as `for x in IT: if c: WL.append(x)`)
